@@ -389,7 +389,7 @@ class SwiftBackend(SwiftBaseBackend):
         elif is_union_type(data_type):
             if objc is False:
                 arg_list = [(fmt_var(data_type.name), '{}.{}'.format(
-                            fmt_class(namespace.name), fmt_class(data_type.name)))]
+                            fmt_class(data_type.namespace.name), fmt_class(data_type.name)))]
             else:
                 arg_list = [(fmt_var(data_type.name), '{}'.format(fmt_objc_type(data_type)))]
 
